@@ -31,10 +31,10 @@ Definition under_obj (n : nat) (o : uopt) : obj :=
 Definition under_inst (K : kmat) (A : mat) (n : nat) (lb ub base w b : vec) (l2_eps : Q) : inst :=
   {| Duality.n := n; ilb := somesv lb; iub := somesv ub; G := []; h := []; cones := [fit_cone K A n base w b l2_eps] |}.
 Record ucase := { u_K : kmat; u_A : mat; u_n : nat; u_lb : vec; u_ub : vec; u_base : vec; u_w : vec; u_b : vec;
-                  u_eps : Q; u_opt : uopt; u_X : vec; u_Bpred : vec; u_cert : cert; u_tol_obj : Q; u_tol : Q }.
+                  u_eps : Q; u_opt : uopt; u_X : vec; u_X0 : vec; u_Bpred : vec; u_cert : cert; u_tol_obj : Q; u_tol : Q }.
 Definition u_qcase (c : ucase) : qcase :=
   {| q_inst := under_inst (u_K c) (u_A c) (u_n c) (u_lb c) (u_ub c) (u_base c) (u_w c) (u_b c) (u_eps c);
-     q_obj := under_obj (u_n c) (u_opt c); q_x := u_X c; q_cert := u_cert c; q_x0 := u_X c;
+     q_obj := under_obj (u_n c) (u_opt c); q_x := u_X c; q_cert := u_cert c; q_x0 := u_X0 c;
      q_eps := u_tol_obj c; q_tolb := u_tol c; q_tol := u_tol c |}.
 Definition uverdict (c : ucase) : bool :=
   qverdict (u_qcase c) &&
@@ -63,11 +63,11 @@ Definition minvar_inst (K : kmat) (A : mat) (n : nat) (lb ub base w b : vec) (rh
      cones := [fit_cone K A n base w b rho] |}.
 Record vcase := { v_K : kmat; v_A : mat; v_n : nat; v_lb : vec; v_ub : vec; v_base : vec; v_w : vec; v_b : vec;
                   v_Eps : option mat; v_rho : Q; v_l1 : option (Q * Q);
-                  v_X : vec; v_Bpred : vec; v_Bvar : vec; v_cert : cert; v_tol_obj : Q; v_tol : Q }.
+                  v_X : vec; v_X0 : vec; v_Bpred : vec; v_Bvar : vec; v_cert : cert; v_tol_obj : Q; v_tol : Q }.
 Definition v_qcase (c : vcase) : qcase :=
   {| q_inst := minvar_inst (v_K c) (v_A c) (v_n c) (v_lb c) (v_ub c) (v_base c) (v_w c) (v_b c) (v_rho c) (v_l1 c);
      q_obj := {| o_d := colsums (v_n c) (eps_model (v_K c) (v_A c) (v_n c) (v_Eps c)); o_M := []; o_e := []; o_c := vzero (v_n c) |};
-     q_x := v_X c; q_cert := v_cert c; q_x0 := v_X c; q_eps := v_tol_obj c; q_tolb := v_tol c; q_tol := v_tol c |}.
+     q_x := v_X c; q_cert := v_cert c; q_x0 := v_X0 c; q_eps := v_tol_obj c; q_tolb := v_tol c; q_tol := v_tol c |}.
 Definition vverdict (c : vcase) : bool :=
   qverdict (v_qcase c) &&
   vclose (1 # 1000000000) (1 # 1000000000) (relcap (v_K c) (v_A c) (v_base c) (v_X c)) (v_Bpred c) &&
